@@ -249,10 +249,12 @@ pub fn c17_worker(ctx: &mut Ctx) {
     let k: u8 = match (ctx.variant.as_str(), ctx.tier) {
         ("miri", Tier::Quick) => 3,
         ("miri", Tier::Thorough) => 4,
-        ("asan", Tier::Quick) | ("valgrind", _) => 5,
-        ("asan", Tier::Thorough) => 7,
-        (_, Tier::Quick) => 6,
-        (_, Tier::Thorough) => 8,
+        ("valgrind", _) => 5,
+        ("asan", Tier::Quick) => 6,
+        ("asan", Tier::Thorough) => 8,
+        ("dbg", Tier::Thorough) => 10,
+        (_, Tier::Quick) => 8,
+        (_, Tier::Thorough) => 11,
     };
     ctx.begin("exhaustive", k as u64, "");
     match exhaustive(k, ctx.shard, ctx.nshards, true) {
